@@ -90,6 +90,11 @@ fn is_frame<F: Coded>(got: F, k: u64, src_len: Option<u64>, tail: u64) -> bool {
 }
 
 fn run_steps<F: Coded>(a: &mut dyn Br<F>, b: &mut dyn Br<F>, choices: &[bool], s: &mut State, counters: &Counters, base: usize) -> CheckResult {
+    run_steps_off::<F>(a, b, choices, s, counters, base, 0)
+}
+
+/// `extra_pulls`: pulls of the shared probe counter that were made by a clone of the fork (its own copy of the source)
+fn run_steps_off<F: Coded>(a: &mut dyn Br<F>, b: &mut dyn Br<F>, choices: &[bool], s: &mut State, counters: &Counters, base: usize, extra_pulls: u64) -> CheckResult {
     for (k, &want_a) in choices.iter().enumerate() {
         let lead_a = s.pa as i64 - s.pb as i64;
         let mut pull_a = want_a;
@@ -117,7 +122,7 @@ fn run_steps<F: Coded>(a: &mut dyn Br<F>, b: &mut dyn Br<F>, choices: &[bool], s
             step, who, idx, got, got.decode(), idx, s.pa, s.pb, s.src_len
         );
         let maxp = s.pa.max(s.pb);
-        ensure!(counters.pulls() == maxp, "step {}: source pulled {} times, but max(pulls_A, pulls_B) = {}", step, counters.pulls(), maxp);
+        ensure!(counters.pulls() == maxp + extra_pulls, "step {}: source pulled {} times, but max(pulls_A, pulls_B) = {}", step, counters.pulls() - extra_pulls.min(counters.pulls()), maxp);
         let (ea, eb) = (s.pb.saturating_sub(s.pa), s.pa.saturating_sub(s.pb));
         ensure!(a.pend() as u64 == ea, "step {}: A.pending_frames() = {}, but A lags by {}", step, a.pend(), ea);
         ensure!(b.pend() as u64 == eb, "step {}: B.pending_frames() = {}, but B lags by {}", step, b.pend(), eb);
@@ -177,9 +182,17 @@ fn run_fork<F: Coded, D: SliceMut<Element = F> + Clone>(rb: Bounded<D>, c: &Case
             st.class_if(s.pa != s.pb, "fork cloned with frames still pending");
             // the clone carries the source position, the queued frames and whom they are for
             let mut twin = fork.clone();
-            drop(fork);
-            let (mut a, mut b) = twin.by_ref();
-            run_steps::<F>(&mut a, &mut b, &c.choices[split..], &mut s, &counters, split)?;
+            let (s0, p0) = (State { ..s }, counters.pulls());
+            {
+                let (mut a, mut b) = twin.by_ref();
+                run_steps::<F>(&mut a, &mut b, &c.choices[split..], &mut s, &counters, split)?;
+            }
+            // the original is a value of its own: used after its clone, it continues from where IT stood (its own source
+            // position, its own queued frames), whatever the clone has consumed in the meantime
+            let extra = counters.pulls() - p0;
+            let mut s1 = s0;
+            let (mut a, mut b) = fork.by_ref();
+            run_steps_off::<F>(&mut a, &mut b, &c.choices[split..], &mut s1, &counters, split, extra).map_err(|e| format!("the original fork, used after its clone had run: {}", e))?;
             st.class("fork cloned mid-use");
         }
         Variant::RcDropA | Variant::RcDropB => {
